@@ -22,7 +22,9 @@ EXTENDS Naturals, Sequences, FiniteSets, TLC
 CONSTANTS Threads,    \* set of thread ids (naturals)
           Reqs,       \* requests per thread
           OwnChoices, \* set of possible values of own (each a set of <<thread, request number>> pairs)
-          FailChoices \* set of possible values of failing (requests that fail after taking a number)
+          FailChoices,\* set of possible values of failing (requests that fail after taking a number)
+          Start       \* value of the counter at the beginning (0 for a new connection; a connection that has
+                      \* already served Start requests otherwise)
 
 VARIABLES counter, holder, pc, nxt, tmp, done, sent,
           own,        \* the requests that carry a caller supplied id (fixed during a behaviour)
@@ -36,7 +38,7 @@ Free == 0
 OwnChoicesStd == { {}, { <<1, 1>> }, { <<1, 2>>, <<2, 1>> } }
 FailChoicesStd == { {}, { <<1, 1>> }, { <<2, 1>> } }
 
-Init == /\ counter = 0 /\ holder = Free
+Init == /\ counter = Start /\ holder = Free
         /\ pc = [t \in Threads |-> "check"]
         /\ nxt = [t \in Threads |-> 0] /\ tmp = [t \in Threads |-> 0]
         /\ done = [t \in Threads |-> 0]
@@ -84,10 +86,10 @@ Generated == SelectSeq(sent, LAMBDA s : ~s.own)
 Numbers == { Generated[i].n : i \in 1 .. Len(Generated) }
 Unique == \A i, j \in 1 .. Len(Generated) : i # j => Generated[i].n # Generated[j].n
 Quiescent == \A t \in Threads : done[t] = Reqs
-GapFree == Quiescent => /\ Numbers \cup lost = 0 .. (Len(Generated) + Cardinality(lost) - 1)
+GapFree == Quiescent => /\ Numbers \cup lost = Start .. (Start + Len(Generated) + Cardinality(lost) - 1)
                         /\ Numbers \cap lost = {}
 (* numbers are handed out without gaps at any time: the ones already sent plus the ones in flight *)
-CounterCounts == counter >= Len(Generated) + Cardinality(lost)
+CounterCounts == counter >= Start + Len(Generated) + Cardinality(lost)
 MutualExclusion == \A t \in Threads : pc[t] \in {"readid", "readinc", "write", "release"} => holder = t
 AllDone == <>Quiescent
 =============================================================================
